@@ -181,6 +181,21 @@ def _remove_invalid_keys(region_meta, valid_keys):
     return meta
 
 
+def _delimit_string(value):
+    """
+    Enclose a string in DS9 string delimiters.
+
+    Curly braces are used unless the string itself contains a closing
+    brace, in which case double (or else single) quotes are used.
+    """
+    value = str(value)
+    if '}' not in value:
+        return f'{{{value}}}'
+    if '"' not in value:
+        return f'"{value}"'
+    return f"'{value}'"
+
+
 def _translate_metadata_to_ds9(region, shape):
     """
     Translate region metadata to valid ds9 meta keys.
@@ -203,7 +218,7 @@ def _translate_metadata_to_ds9(region, shape):
         meta['include'] = int(bool(meta['include']))
 
     if 'text' in meta:
-        meta['text'] = f'{{{meta["text"]}}}'
+        meta['text'] = _delimit_string(meta['text'])
 
     edgecolor = meta.pop('edgecolor', None)
     facecolor = meta.pop('facecolor', None)
